@@ -313,9 +313,24 @@ def r4_node_ids_fresh(run, F):
     run.ob("R4-NODE-IDS-FRESH", "scan", n >= 3, "src/delta/parser/parse_tree.rs", "%d id-returning methods of ParseBuffer examined" % n)
 
 
+def r5_header_always_converted(run, F):
+    """The header of a module is built by one routine that drops private zones *and* clears `pub` on what it keeps.  build_header
+    has no way round it: on the MIR every return of build_header is dominated by the call of build_header_nodes (a shortcut for
+    "modules without private zones" would hand back the declarations with their `pub` flags)."""
+    b = F.body(PT + "ParseTree::build_header")
+    cfg = mirq.CFG(b)
+    calls_ = [i for i, t in cfg.calls() if (mirq.call_target(t) or "") == PT + "ParseTree::build_header_nodes"]
+    run.require(calls_, "build_header does not call build_header_nodes (the rule reads that form only)")
+    exits = cfg.exits()
+    bad = [e for e in exits if not any(cfg.dominates(c, e) for c in calls_)]
+    run.ob("R5-HEADER-ALWAYS-CONVERTED", "build_header", bool(exits) and not bad, F.where(b),
+           "every return of build_header is dominated by build_header_nodes (%d return block(s), %d reachable without the conversion)" % (len(exits), len(bad)))
+
+
 def check(run):
     F = run.facts("A")
     r1_convert(run, F)
     r2_zones(run, F)
     r3_build(run, F)
     r4_node_ids_fresh(run, F)
+    r5_header_always_converted(run, F)
